@@ -5254,6 +5254,12 @@ func (a *Agent) TaskDispatch(RequestID uint32, CommandID uint32, Parser *parser.
 										// if the agent doesn't exist then we assume that it's a register request from a new agent
 
 										DemonInfo = ParseDemonRegisterRequest(AgentHdr.AgentID, AgentHdr.Data, "")
+										if DemonInfo == nil {
+											Message["Type"] = "Error"
+											Message["Message"] = "[SMB] Failed to connect: failed to parse the agent"
+											teamserver.AgentConsole(a.NameID, HAVOC_CONSOLE_MESSAGE, Message)
+											return
+										}
 										DemonInfo.Pivots.Parent = a
 
 										a.Pivots.Links = append(a.Pivots.Links, DemonInfo)
